@@ -105,19 +105,22 @@ PROPS["C13"] = dict(
 )
 
 PROPS["C15"] = dict(
-    units=[("kani", "headers"), ("kani", "pcapcodec")] + [("verus", "hdrser.%s" % k) for k in ("tcp", "udp", "eth", "vlan", "ipv4", "ipv6")],
-    explanation="Unbounded half (Verus, every buffer length and offset): each layer's from_bytes sets offset = off + header length <= len, and "
+    units=[("kani", "headers"), ("kani", "pcapcodec"), ("verus", "pktcache")] + [("verus", "hdrser.%s" % k) for k in ("tcp", "udp", "eth", "vlan", "ipv4", "ipv6")],
+    explanation="Caching discipline (Verus, the 12 layer-getter arms of vm/pktprop.rs): a READ returns the cached inner object or parses the child from the parent's own "
+                "buffer at the parent's payload offset, and caches only such a child (never an error object) - the shape the serialisers need. Unbounded half (Verus, every buffer length and offset): each layer's from_bytes sets offset = off + header length <= len, and "
                 "From<&Layer> for Vec<u8> returns header bytes ++ rawdata[offset..] when no inner layer is cached (header bytes ++ the inner object's bytes otherwise). "
                 "Header half (Kani, every header content): serialising the parsed header gives back the captured header bytes (bounded_checks: with a short payload attached).",
-    not_covered=["that a cached inner layer serialises to rawdata[offset..] (induction over the layer chain through From<&Object>); cached error objects (pktprop getters)",
+    not_covered=["the final induction over the layer chain (From<&Object> dispatch) that combines the three facts - child parsed at the parent's payload offset (pktcache), "
+                 "serialise = header ++ inner|raw[offset..] (hdrser), header codec identity (headers) - into bytes written == bytes captured",
                  "PcapPacket serialiser for unbounded payload"],
     assumptions=[],
     trusted=COMMON_TRUST,
 )
 PROPS["C16"] = dict(
-    units=[("kani", "headers"), ("kani", "pcapcodec")] + [("verus", "hdrser.%s" % k) for k in ("tcp", "udp", "eth", "vlan", "ipv4", "ipv6")],
+    units=[("kani", "headers"), ("kani", "pcapcodec"), ("verus", "pktcache")] + [("verus", "hdrser.%s" % k) for k in ("tcp", "udp", "eth", "vlan", "ipv4", "ipv6")],
     explanation="For every header content of each layer, every getter equals the RFC field of the raw bytes, the parser fails exactly on truncated headers and the payload offset follows the header length fields.",
-    not_covered=["address text (C18)", "layer dispatch get_inner / exec_prop_* (pktprop unit, when built)", "pcap global header (C19)"],
+    not_covered=["address text (C18)", "get_inner's dispatch on EtherType / protocol / next header (read; the getters it dispatches to are under contract: each returns a layer of its own kind parsed at the parent's payload offset, or an error object)",
+                 "the scalar exec_prop_* arms (thin wrappers around the verified getters/setters)"],
     assumptions=["TCP flags are the 12 bits after the data offset (reserved + control bits), so that serialisation stays lossless"],
     trusted=COMMON_TRUST,
 )
